@@ -5,10 +5,11 @@ Open Scope N_scope.
 Definition dec_optn (v : tval) : option N := match vopt v with Some x => Some (vn x) | None => None end.
 Definition dgrams_eqb (a b : list (list N)) : bool := all2 list_eqb a b.
 
-(* kind 0 — tunnel -> UDP:  [0; stream; cuts; end; wd; wfail?; delivered; recv_err; recv_bytes] *)
+(* kind 0 — tunnel -> UDP:  [0; stream; cuts; end; wd; wfail?; delivered; recv_err; recv_bytes; batch_path]
+   batch_path = 1: the local side was a real *net.UDPConn (sendmmsg batch writer of the regenerated capacity) *)
 Definition run_deframe (v : tval) : dres :=
   let s := vb (vnth 1 v) in
-  deframe_cur (S (length s)) (ust0 s (map vnat (vl (vnth 2 v))) (vn (vnth 3 v)) (vbool (vnth 4 v)) (dec_optn (vnth 5 v))).
+  deframe_on (if vbool (vnth 9 v) then Some UdpBatchWriterCap else None) (S (length s)) (ust0 s (map vnat (vl (vnth 2 v))) (vn (vnth 3 v)) (vbool (vnth 4 v)) (dec_optn (vnth 5 v))).
 Definition check_deframe (v : tval) : bool :=
   match run_deframe v with
   | DFuel => false
